@@ -82,11 +82,21 @@ def gepClass (elem src : Ty) (args : List IdxArg) : String :=
   else if args.any (fun a => match a.c with | some (.expr false) => true | _ => false) then "gep-constant-expression-index"
   else "unclassified"
 
+/-- kinds that have a constant-expression constructor in ir/constant (binary: only the integer operations) -/
+def hasExprForm (ks : String) (k : Kind) : Bool :=
+  match k with
+  | .fneg | .extractelement | .insertelement | .shufflevector | .cast | .icmp | .fcmp | .select => true
+  | .binop => ["add", "xor", "add:add", "add:sub", "add:mul", "add:shl", "add:lshr", "add:ashr", "add:and", "add:or", "add:xor"].contains ks
+  | _ => false
+
 def typingOps (op : String) (a : List String) : Option String :=
   match op, a with
   | "typ.ir", k :: ts => do
     let k ← parseKind k; let ts ← tysArg ts
     pure (showR (resultIRObserved k ts))
+  | "typ.expr", ks :: ts => do
+    let k ← parseKind ks; let ts ← tysArg ts
+    pure (if hasExprForm ks k then showR (resultIRObserved k ts) else "skip")
   | "typ.asm", k :: ts => do
     let k ← parseKind k; let ts ← tysArg ts
     pure (if asmRendered k then showR (resultAsmObserved k ts) else "skip")
